@@ -79,16 +79,27 @@ class Proto:
         elif op == "discard":
             self._need().discard_patch()
         elif op == "write":
+            # a change of the tree through the record API: random state-aware data operations
+            # (datasets, groups, attributes on any node, deletions, replacements, copies, moves)
             self.wcount += 1
             r = self._need()
-            if self.wcount % 3 == 0 and "w" in r:
-                del r["w"]
-            elif self.wcount % 3 == 1:
+            if not self.handle()["wr"]:
+                r.attrs["k"] = self.wcount      # must be refused: nothing is writable
+                return extra
+            done = 0
+            view = h5lib.project(r, self.km, self.tk)["view"]
+            for _ in range(8):
+                e = h5lib.gen_op(self.rng, view, depth=3, values=["v1", "v2", "v3", "v4"])
+                try:
+                    h5lib.apply_op(r, e, self.km, self.tk.pool)
+                    done += 1
+                    view = h5lib.project(r, self.km, self.tk)["view"]
+                except Exception:
+                    pass
+                if done >= 1 + self.wcount % 3:
+                    break
+            if not done:
                 r.attrs["k"] = self.wcount
-            else:
-                if "w" in r:
-                    del r["w"]
-                r["w/d"] = self.wcount
         elif op == "close":
             if self.rec is not None:
                 self.rec.close(commit=a["commit"])
